@@ -115,7 +115,11 @@ def _real(seed):
     if mode == 1:
         S[:, 0] = 3.25                                  # constant sensitive column
     elif mode == 2 and k >= 2:
-        S[:, 1] = 2 * S[:, 0] - 1                       # collinear sensitive columns
+        if rs.rand() < 0.5:
+            S[:, 1] = 2 * S[:, 0] - 1                   # collinear sensitive columns
+        else:                                           # complete one-hot encoding (columns sum to one) / repeated column
+            cat = rs.randint(0, k, n); cat[:k] = np.arange(k)[:n] if n >= k else cat[:k]
+            S = np.eye(k)[cat].astype(float)
     Zm = rs.randn(n, m) + S[:, :1] * rs.uniform(-2, 2) + rs.uniform(-5, 5, size=m)
     perm = rs.permutation(k + m)
     Xfull = np.concatenate([S, Zm], axis=1)[:, perm]
@@ -139,8 +143,9 @@ def _real(seed):
             sv = np.linalg.svd(Sx - Sx.mean(axis=0), compute_uv=False)
             # centred sensitive columns that are rank deficient up to rounding noise (always when k >= n; collinear columns otherwise)
             noisy_rank_deficient = bool(len(sv) and sv[0] > 0 and 0 < sv[-1] / sv[0] < 1e-12) or bool(k >= n)
+            k_ge_n = bool(k >= n)
             if np.abs(cov).max() > 1e-8 * scale:
-                out.append(({"api": "fit_transform", "kind": "covariance", "real": True, "noisy_rank_deficient": noisy_rank_deficient},
+                out.append(({"api": "fit_transform", "kind": "covariance", "real": True, "noisy_rank_deficient": noisy_rank_deficient, "sensitive_columns_ge_rows": k_ge_n},
                             f"covariance {np.abs(cov).max()} (n={n}, k={k}, mode={mode}; singular values of the centred sensitive columns {sv.tolist()})", detail))
                 continue
             al = float(rs.uniform(0, 1))
